@@ -72,10 +72,6 @@ func readerNoise(salt int) {
 	if !ok {
 		return
 	}
-	for i := 0; i < 3; i++ {
-		nd.Lookup(pbString(es[(salt+i*7)%len(es)].Name))
-		nd.Lookup(pbString(fmt.Sprintf("absent-%d", i)))
-	}
 	_, _ = rn.LookupByString("absent")
 	it := nd.Iterator()
 	for i := 0; i < 5 && !it.Done(); i++ {
@@ -84,6 +80,15 @@ func readerNoise(salt int) {
 	mi := rn.MapIterator()
 	for i := 0; i < 3 && !mi.Done(); i++ {
 		_, _, _ = mi.Next()
+	}
+	// which call comes last matters (whatever it leaves behind is what the next user of the package finds)
+	switch salt % 3 {
+	case 0:
+		nd.Lookup(pbString(es[salt%len(es)].Name))
+	case 1:
+		nd.Lookup(pbString("absent-name"))
+	default:
+		_, _ = rn.LookupBySegment(datamodel.PathSegmentOfString(es[salt%len(es)].Name))
 	}
 }
 
